@@ -4,7 +4,7 @@ def run(tier, seed):
     T = {g.name: g for g in families.t_sets()}
     R = report.Run('C04', tier, seed); cases = []
     if tier == 'quick':
-        plan = [(('kwid', 'eqeq', 'abcd'), [3], 0, 0), (('kwx',), [3], 1, 1), (('idkw', 'num'), [3], 1, 0)]
+        plan = [(('kwid', 'abcd'), [3], 0, 0), (('eqeq',), [2], 0, 0), (('kwx',), [2], 1, 1), (('idkw', 'num'), [2], 1, 0)]
     else:
         plan = [(tuple(T), [1, 2, 3, 4], 0, 0), (tuple(T), [2, 3, 4], 1, 1), (tuple(T), [2, 3], 1, 0)]
     for names, Ls, ws, nl in plan:
